@@ -45,6 +45,8 @@ def generate(seed, tier="quick", faults=True, **kw):
     files = []
     for p in paths:
         files.append({"path": p, "lines": GC.gen_lines(r, ctx, secrets, o, r.randint(0, 14))})
+        if o["ip"] and r.random() < 0.25:
+            files[-1]["lines"].insert(r.randint(0, len(files[-1]["lines"])), GC.directed_line(r))
     for p in hidden:
         files.append({"path": p, "lines": GC.gen_lines(r, ctx, secrets, o, r.randint(1, 3)), "hidden": True})
     xdisk = {"dirs": list(dirs), "files": {}}
@@ -220,6 +222,7 @@ def check(plan):
     def viol(prop, tag, detail, key=None):
         V.append({"prop": prop, "tag": tag, "detail": detail, "key": key})
 
+    plan = dict(plan, files=GC.resolve_directed(plan["files"], plan["opts"], plan["knobs"]))
     probes = {"fault_inside_file": 0, "late_write_fault": 0, "failed_with_progress": 0, "failed_no_progress": 0,
               "baseline_runs": 0, "progress_search": 0, "dump_checked": 0, "crash_after_first_write": 0,
               "files_completed": 0, "stale_present": 0, "hidden_present": 0, "prefix_checked": 0, "entry_" + plan["entry"]: 1}
